@@ -21,6 +21,7 @@ PredSet(name) ==
       [] name = "p1a" -> {P(<<1>>, 0), P(<<1>>, 1), P(<<-1>>, 0)}
       [] name = "p1s" -> {P(<<1>>, 0), P(<<-1>>, -1)}
       [] name = "pp2s" -> {Aff(<<<<1, 0>>, <<0, 1>>>>, <<0, 1>>), P(<<1, 1>>, 1)}
+      [] name = "p3s" -> {P(<<1, 0, 0>>, 0), P(<<0, 1, 1>>, 1), P(<<1, -1, 0>>, 0)}          \* three input coordinates
       [] name = "pp2m" -> {Aff(<<<<1, 0>>, <<0, 1>>>>, <<0, 1>>), P(<<1, 0>>, 1)}     \* a two-row decision and a one-row context that separates its labels 1 and 2
       [] name = "pp2" -> {Aff(<<<<1, 0>>, <<0, 1>>>>, <<0, 0>>), Aff(<<<<1, 1>>, <<1, -1>>>>, <<1, 0>>), P(<<1, 0>>, 1)}
 TermSet(name) ==
@@ -28,6 +29,8 @@ TermSet(name) ==
       [] name = "t22b" -> {Aff(<<<<1, 0>>, <<0, 1>>>>, <<0, 0>>), Aff(<<<<0, 1>>, <<1, 0>>>>, <<1, -2>>), Aff(<<<<2, 0>>, <<0, -1>>>>, <<0, -1>>)}
       [] name = "t22c" -> {Aff(<<<<1, 0>>, <<0, 1>>>>, <<0, 0>>), Aff(<<<<1, 0>>, <<0, 1>>>>, <<0, 1>>), Aff(<<<<1, 0>>, <<0, 2>>>>, <<0, 0>>)}   \* differ only in bias / one coefficient
       [] name = "t22z" -> {Aff(<<<<0, 0>>, <<0, 1>>>>, <<0, 0>>), Aff(<<<<1, 0>>, <<0, 0>>>>, <<0, 1>>)}     \* a constant component that ties with the thresholds of p2a
+      [] name = "t33s" -> {Aff(<<<<0, 1, 0>>, <<1, 0, 1>>, <<0, 0, 2>>>>, <<1, 0, -1>>)}
+      [] name = "t23s" -> {Aff(<<<<1, 0, 1>>, <<0, 2, -1>>>>, <<0, 1>>), Aff(<<<<0, 1, 0>>, <<1, 0, 0>>>>, <<2, 0>>)}     \* R^3 -> R^2
       [] name = "t22s" -> {Aff(<<<<0, 1>>, <<1, 0>>>>, <<1, 0>>)}
       [] name = "tp2one" -> {Aff(<<<<1, 1>>>>, <<1>>), Aff(<<<<0, 1>>>>, <<0>>)}     \* the first one coincides with the predicate of p2one
       [] name = "tp2s" -> PredSet("p2s") \cup {Aff(<<<<0, 1>>>>, <<0>>)}          \* terminals R^2 -> R^1 that coincide with predicates of p2s
